@@ -556,9 +556,14 @@ def run_replay(ck):
     """bin/check C10 --replay <file>: re-run the (site, value) of a replay file against the current tree"""
     o = json.load(open(ck.replay))
     c = o.get("case")
+    if not c and o.get("position") is not None:       # PromQL / Pyroscope selection tie
+        return c10sel.run(ck, [], "replay", values=[o["value"]])
+    if not c and o.get("traceql_num_site"):           # a number / duration written as text in a TraceQL request
+        return c10tq.run(ck, [], "replay", describe, num_queries=[(o["traceql_num_site"], o["traceql"])])
     if not c:
-        ck.log("replay without a concrete input (%s): re-running the site census" % o.get("kind"))
+        ck.log("replay without a concrete input (%s): re-running the site censuses" % o.get("kind"))
         run_sites(ck)
+        run_wsites(ck)
         return
     if not ck.go_build("sqlinject"):
         ck.obligation("harness sqlinject builds against the repository", False, ck.build_out[-1500:])
@@ -581,6 +586,9 @@ def run_replay(ck):
             return
     ck.coverage["evaluations"] += len(cases)
     run_tree_tie(ck, cases, "replay")
+    tq_pairs = [(cs, bases[cs["base"]]) for cs in cases if cs.get("tq") and 0 <= cs["base"] < len(bases) and bases[cs["base"]].get("tq")]
+    if tq_pairs:
+        c10tq.run(ck, tq_pairs, "replay", describe, num_queries=[])
     ck.obligation("replayed input %r at %s keeps the statement structure" % (bytes.fromhex(c["val"]), c["site"]), not verd,
                   "; ".join(CODE.get(v, str(v)) for v in verd.values()))
     for cs in cases:
